@@ -1,7 +1,7 @@
 """C17 — every message and query reaches exactly the module configured for it (DESIGN.md §5 C17)."""
 from vlib import q
 from vlib.cfg import cfg_of
-from vlib.prov import peel, fmt, is_param, contains, alts, deep_peel, same_origin, is_param_field, strip_adapters
+from vlib.prov import peel, fmt, is_param, contains, alts, deep_peel, same_origin, is_param_field, strip_adapters, just
 from vlib.uses import dropped_results
 
 LEVEL = "other"
@@ -65,6 +65,47 @@ def check(ctx, cfg):
     r7(ctx, cfg)
     r8(ctx, cfg)
     r9(ctx, cfg)
+    r10(ctx, cfg)
+
+
+def r10(ctx, cfg):
+    """"each kind of ... query ... is handed, with its payload intact, to the module ... for that kind" - and on to the contract: the
+    Smart arm of the wasm module's query hands (validated contract_addr, api, storage, querier, block, msg as it is) to
+    query_smart, which runs `handler.query(deps, env, msg)` with that very message inside with_storage_readonly of that address"""
+    F, P = cfg.facts, cfg.prov
+    R = "C17.R10"
+    key = "<wasm::WasmKeeper as wasm::Wasm>::query"
+    f = ctx.need_fn(R, key)
+    if f is not None:
+        def reqf(o, name):
+            o = peel(o)
+            return o[0] == "field" and o[2] == name and peel(o[1])[0] == "variant" and peel(o[1])[2] == "Smart" and is_param(peel(o[1])[1], "request")
+        cs = q.calls(f, "wasm::WasmKeeper::query_smart")
+        ok = len(cs) == 1
+        if ok:
+            a = P.call_args(f, cs[0][1], cs[0][0])
+            ad = peel(a[1])
+            # the Ok payload of addr_validate(contract_addr), possibly with its error converted on the way (`.map_err(..)`, `?`)
+            calls = []
+            contains(ad, lambda x: calls.append(x[1]) if x[0] == "call" else False)
+            ok = ad[0] == "ok" and contains(ad[1], lambda x: x[0] == "call" and x[1].endswith("Api::addr_validate") and just(x[2][1], lambda y: reqf(y, "contract_addr"))) and \
+                all(c.endswith("Api::addr_validate") or c.rsplit("::", 1)[-1] in ("map_err", "from", "into") for c in calls) and \
+                is_param(a[2], "api") and is_param(a[3], "storage") and is_param(a[4], "querier") and is_param(a[5], "block") and just(a[6], lambda y: reqf(y, "msg"))
+        ctx.ob(R, key, "Smart-query-handed-on-intact", ok, "the Smart arm does not call query_smart(validated contract_addr, api, storage, querier, block, msg)", fn=f,
+               sample="query_smart(addr, api, storage, querier, block, msg.into())")
+    k2 = "wasm::WasmKeeper::query_smart"
+    g = ctx.need_fn(R, k2)
+    if g is not None:
+        qs = [(h, b, t) for h in F.lexical(k2) for b, t in h.calls() if t["callee"]["key"] == "contracts::Contract::query"]
+        ws = q.calls(g, "wasm::WasmKeeper::with_storage_readonly")
+        ok = len(qs) == 1 and len(ws) == 1
+        if ok:
+            h, b, t = qs[0]
+            a = P.call_args(h, t, b)
+            wa = P.call_args(g, ws[0][1], ws[0][0])
+            ok = is_param(a[3], "msg") and h.key != k2 and is_param(wa[5], "address") and is_param(wa[2], "storage") and is_param(wa[3], "querier") and is_param(wa[4], "block")
+        ctx.ob(R, k2, "contract-queried-with-the-message", ok, "query_smart does not run handler.query(deps, env, msg) inside with_storage_readonly(.., address, ..)", fn=g,
+               sample="with_storage_readonly(api, storage, querier, block, address, |h, deps, env| h.query(deps, env, msg))")
 
 
 def r9(ctx, cfg):
